@@ -185,6 +185,43 @@ def run_case(case):
                     keep_dir = d
                 else:
                     shutil.rmtree(d, ignore_errors=True)
+        # ---- one more run in which a few chunks are submitted a second time with the very
+        # same bytes (a caller's retry).  The writer may accept or refuse each of them; either
+        # way the dataset must close and hold exactly the same shard files.
+        if case["sseed"] % 3 == 0 and not v and len(orders[0]) >= 2:
+            r3 = random.Random(case["oseed"] + 1)
+            strategy = r3.choice(("on disk", "in memory"))
+            d = os.path.join(top, "run-resubmit")
+            order = list(orders[r3.randrange(len(orders))])
+            try:
+                pio, acc = shardlib.open_writer(d, cfg, strategy, case["encoding"])
+                done, again = [], 0
+                for pos in order:
+                    pio.write_chunk(shardlib.chunk_array(np, cfg, pos), "s0",
+                                    shardlib.coords_of(cfg, pos))
+                    done.append(pos)
+                    if again < 4 and r3.random() < 0.4:
+                        again += 1
+                        old = r3.choice(done)
+                        try:
+                            pio.write_chunk(shardlib.chunk_array(np, cfg, old), "s0",
+                                            shardlib.coords_of(cfg, old))
+                            obs["resubmissions_accepted"] = obs.get(
+                                "resubmissions_accepted", 0) + 1
+                        except Exception:  # noqa: BLE001
+                            obs["resubmissions_refused"] = obs.get(
+                                "resubmissions_refused", 0) + 1
+                acc.close()
+                obs["writer_runs_with_resubmissions"] = int(again > 0)
+                dg, _names = shardlib.tree_digest(os.path.join(d, "s0"), ".shard")
+                digests.setdefault(dg, []).append(
+                    (strategy + " +resubmissions", [list(p) for p in order[:10]]))
+            except Exception as exc:  # noqa: BLE001
+                v.append({"kind": "writer-raised-after-a-resubmitted-chunk",
+                          "detail": f"{ctx} strategy={strategy} order="
+                          f"{[list(p) for p in order[:8]]}: {type(exc).__name__}: "
+                          f"{str(exc)[:160]}"})
+            shutil.rmtree(d, ignore_errors=True)
         if len(digests) > 1:
             ex = [x[0] for x in digests.values()]
             v.append({"kind": "shard-files-depend-on-order-or-strategy",
@@ -275,4 +312,6 @@ def gates(obs, tier):
         "identifiers_beyond_2_32": obs.get("identifiers_ge_2_32", 0) > 0,
         "more_than_64_shards_in_a_scale": obs.get("more_than_64_shards", 0) > 0,
         "megabyte_minishards": obs.get("minishard_data_over_1MiB", 0) > 0,
+        "resubmitted_chunks_refused_and_accepted": obs.get("resubmissions_refused", 0) > 10
+        and obs.get("resubmissions_accepted", 0) > 10,
     }
